@@ -370,6 +370,14 @@ func (p *Page) getBox(name string) ([]float64, error) {
 	// Convert to float64 slice
 	box := make([]float64, 4)
 	for i, elem := range boxArr {
+		// Any array element may be an indirect reference to a number
+		if _, isRef := elem.(core.IndirectRef); isRef && p.resolver != nil {
+			resolved, err := p.resolver.Resolve(elem)
+			if err != nil {
+				return nil, fmt.Errorf("failed to resolve %s element %d: %w", name, i, err)
+			}
+			elem = resolved
+		}
 		switch v := elem.(type) {
 		case core.Int:
 			box[i] = float64(v)
